@@ -54,6 +54,24 @@ CHECKS = {
               "forcing-invariant axes for Kolmogorov flow), all axis permutations on Nyquist-free states, embeddings along every axis (with the "
               "documented D*a_0 convention of the generic zeroth-order coefficient)."),
         note="TLC, np.roll/transpose/broadcast as group actions, code-vs-code tolerance 1e-10; nonlinear terms bound to the specification by C03"),
+    "C09": dict(
+        category="model_checking", design_ref="4/C09", engine="nonlin",
+        technique="TLC invariants on the exact sparse-spectrum machine over sums of degree+1 basis functions (trilinear conservation forms), tableau row sums, lambda(0)=0 + TLC-validated monitored rollouts (Trace_Monitor)",
+        text=("TLC checks exactly, for every sum of three real basis functions inside the retained band: the zero mode of every conservative form vanishes "
+              "(MeanOK), Burgers-type convection does no work (EnergyOK), 2D vorticity convection conserves energy and enstrophy (VortOK), the 3D "
+              "rotational term does no work and keeps the mean on divergence-free input (Rot3dOK); lambda(0)=0 for the mean-conserving classes "
+              "(MC_Linear.MeanOK) and the row-sum identities that make constant equilibria fixed points of every order (MC_ETDRK.RowSumOK). Real "
+              "steppers of every listed class/form x order 1-4 x D x N odd/even are rolled out on white-noise states with the per-channel mean drift "
+              "logged per step and validated by TLC; work is evaluated in physical space on band-limited states; constant equilibria are stepped."),
+        note="TLC, Trace_Monitor acceptance bound 2e4 ulps of the state magnitude; known finding F9 (3D velocity form on compressible states) is matched by (class, state kind) only"),
+    "C10": dict(
+        category="model_checking", design_ref="4/C10", engine="nonlin",
+        technique="TLC invariants LerayOK/Rot3dOK on the exact sparse-spectrum machine + replay on random fields + TLC-validated divergence monitoring of 3D rollouts",
+        text=("For every basis sum TLC checks exactly that the Leray projection is divergence-free, idempotent, the identity on divergence-free fields "
+              "and on the mean, and that the 3D rotational convection term is divergence-free for every input. Leray and make_incompressible are "
+              "compared with each other and with these laws on random Nyquist-free fields (D=2,3, N odd/even, several L); 5-step rollouts of "
+              "NavierStokesVelocity/KolmogorovFlowVelocity from solenoidal states for orders 1-4 log the spectral divergence per step, validated by TLC."),
+        note="TLC, the library's derivative operator as measuring instrument for the divergence (C04/C05), Trace_Monitor bound 5e4 ulps"),
     "C14": dict(
         category="model_checking", design_ref="4/C14", engine="rollout",
         technique="TLC state machine of rollout/repeat/windows (MC_Rollout) + replay of every terminal state + TLC trace validation (Trace_Rollout) of recorded executions",
@@ -123,7 +141,7 @@ def main():
              "kind_free_text": "TLC symbolic stage machine + coefficient cover + trace validation"},
             {"name": "validate", "path": "spec/MC_Validate.tla spec/Trace_Validate.tla harness/checks/c20.py", "serves_properties": ["C20"],
              "kind_free_text": "TLC decision tables + replay + hook-trace validation"},
-            {"name": "nonlin", "path": "spec/Nonlin.tla spec/MC_Nonlin.tla harness/nonlin.py harness/checks/c03.py", "serves_properties": ["C03", "C08"],
+            {"name": "nonlin", "path": "spec/Nonlin.tla spec/MC_Nonlin.tla harness/nonlin.py harness/checks/c03.py", "serves_properties": ["C03", "C08", "C09", "C10"],
              "kind_free_text": "TLC exact sparse-spectrum machine + spec->code replay"},
             {"name": "rollout", "path": "spec/MC_Rollout.tla spec/Trace_Rollout.tla harness/checks/c14.py", "serves_properties": ["C14"],
              "kind_free_text": "TLC state machine + replay + trace validation"},
